@@ -164,6 +164,9 @@ func runC15(c *Ctx, r *Report) {
 	// R-C15.6: with an upper bound option the start set never falls back to the heads
 	r.Doc("R-C15.6", "on a path where an upper-bound option (LT/LTE) was seen, the start set handed to the traversal is never (re)assigned from the log's heads")
 	r.Doc("R-C15.7", "entries are emitted newest first and counted once: the traversal sorts its start set, re-sorts after every growth before taking the next entry, and marks every taken entry visited before pushing its predecessors (causally related upper bounds are not counted twice against the amount)")
+	r.Doc("R-C15.10", "the starting set of an iteration collects something for every given bound: the loop that gathers it never overwrites what earlier bounds contributed")
+	iterReach := c.CG.Reach([]*Fn{p.Func("", "IPFSLog", "Iterator")}, false)
+	accumulatorsKept(c, r, "R-C15.10", func(fn *Fn) bool { _, ok := iterReach[fn.Root()]; return ok && inPkgs(p, fn, "", "entry") }, 2, "the entries below the earlier bounds are never emitted")
 	importRules(c, r, "C03", []string{"R-C03.2", "R-C03.3"}, "R-C15.7")
 	r.Doc("R-C15.8", "the loops that build the start set from the upper bounds process every bound")
 	loopsComplete(c, r, "R-C15.8", func(fn *Fn) bool { return rootNamed(fn, "Iterator") }, "upper bounds after the point where the loop stops are ignored: their causal past is not emitted")
